@@ -2,7 +2,7 @@
 #include <stdlib.h>
 #include <stddef.h>
 #include "igzip_inflate_parts.h"
-uint32_t g_p, g_b, g_n, g_q;
+uint32_t g_p, g_b, g_n, g_q, g_i, g_j;
 uint8_t w_q0;
 uint64_t g_d, g_s0, g_s1;
 int64_t g_bits0;
@@ -36,3 +36,14 @@ h_read_header_stateful(void)
         (void) r;
         VCANARY();
 }
+
+#ifdef INF_STATIC
+void
+h_setup_static_header(void)
+{
+        struct inflate_state *state;
+        int r = setup_static_header(state);
+        (void) r;
+        VCANARY();
+}
+#endif
